@@ -341,13 +341,12 @@ DropProof(S, k) ==
 \* Available = per container the MAX amount (union of ids) any base proof locked there, summed over the containers.
 \* The walk visits the zone's proofs in order; it reads EVERY visited proof as a proof of the requested kind (a proof of
 \* the other kind makes the native code trap); each container is locked once, up to its quota, until nothing remains.
-ZoneEntries(S) ==      \* the zone flattened: per proof an "open" marker followed by its evidence entries
-  LET RECURSIVE ZFl(_)
-      ZFl(i) == IF i > Len(S.az) THEN <<>>
-               ELSE LET rest == ZFl(i + 1)
-                    IN <<[t |-> "o", res |-> S.az[i].res, e |-> EvE(NoRef, 0, {})]>>
-                       \o [j \in DOMAIN S.az[i].ev |-> [t |-> "e", res |-> S.az[i].res, e |-> S.az[i].ev[j]]] \o rest
-  IN ZFl(1)
+RECURSIVE ZFl(_, _)    \* the zone flattened: per proof an "open" marker followed by its evidence entries
+ZFl(S, i) == IF i > Len(S.az) THEN <<>>
+             ELSE LET rest == ZFl(S, i + 1)
+                  IN <<[t |-> "o", res |-> S.az[i].res, e |-> EvE(NoRef, 0, {})]>>
+                     \o [j \in DOMAIN S.az[i].ev |-> [t |-> "e", res |-> S.az[i].res, e |-> S.az[i].ev[j]]] \o rest
+ZoneEntries(S) == ZFl(S, 1)
 BaseEntries(S, r) == {x.e : x \in {y \in {ZoneEntries(S)[i] : i \in DOMAIN ZoneEntries(S)} : y.t = "e" /\ y.res = r}}
 QuotaRefs(S, r) == {e.ref : e \in BaseEntries(S, r)}
 QuotaAmt(S, r, ref) == MaxSet({e.amt : e \in {x \in BaseEntries(S, r) : x.ref = ref}})
@@ -697,18 +696,19 @@ UseAfterConsume ==
 \* number of evidence entries of live proofs (named or in the zone; plain, cloned or composed) on a container
 EntriesOf(p) == {<<j, p.ev[j]>> : j \in DOMAIN p.ev}
 LiveP == [i \in {j \in DOMAIN np : np[j].live} |-> np[i].p]
-NEntries(ref, test(_, _)) ==
-  SetSum([i \in DOMAIN LiveP |-> Cardinality({x \in EntriesOf(LiveP[i]) : x[2].ref = ref /\ test(LiveP[i], x[2])})], DOMAIN LiveP)
-  + SetSum([i \in DOMAIN az |-> Cardinality({x \in EntriesOf(az[i]) : x[2].ref = ref /\ test(az[i], x[2])})], DOMAIN az)
+CntE(p, ref, n, x) ==   \* entries of proof p on container ref with fungible amount n (n > 0) or containing id x (n = 0)
+  Cardinality({e \in EntriesOf(p) : e[2].ref = ref /\ (IF n > 0 THEN IsF(p.res) /\ e[2].amt = n ELSE x \in e[2].ids)})
+NEntries(ref, n, x) == SetSum([i \in DOMAIN LiveP |-> CntE(LiveP[i], ref, n, x)], DOMAIN LiveP)
+                       + SetSum([i \in DOMAIN az |-> CntE(az[i], ref, n, x)], DOMAIN az)
 LocksMatchProofs ==     \* the locks of a container are exactly the evidence entries of the live proofs on it
   \A ref \in Refs :
     LET c == GetC(Cur, ref)
         es == {x[2] : x \in UNION {EntriesOf(p) : p \in AllProofs}}
         fam == {e.amt : e \in {x \in es : x.ref = ref /\ x.ids = {} /\ x.amt > 0}}
     IN /\ DOMAIN c.lka = fam
-       /\ \A n \in DOMAIN c.lka : LET t(p, e) == IsF(p.res) /\ e.amt = n IN c.lka[n] = NEntries(ref, t)
+       /\ \A n \in DOMAIN c.lka : c.lka[n] = NEntries(ref, n, 0)
        /\ DOMAIN c.lki = UNION {e.ids : e \in {x \in es : x.ref = ref}}
-       /\ \A x \in DOMAIN c.lki : LET t(p, e) == x \in e.ids IN c.lki[x] = NEntries(ref, t)
+       /\ \A x \in DOMAIN c.lki : c.lki[x] = NEntries(ref, 0, x)
 RECURSIVE EvSum(_, _)
 EvSum(ev, j) == IF j > Len(ev) THEN 0 ELSE LET rest == EvSum(ev, j + 1) IN ev[j].amt + rest
 ProofBacked ==          \* what a live proof evidences is locked for it in the containers it names: it cannot leave them
